@@ -1,6 +1,8 @@
 package checks
 
 import (
+	"math/big"
+
 	"github.com/kstenerud/go-concise-encoding/ce"
 	"github.com/kstenerud/go-concise-encoding/configuration"
 
@@ -57,9 +59,35 @@ func init() {
 	})
 }
 
+// c01Directed: boundary streams that run first for every seed (index 0 is the probe of the big.Float known finding).
+func c01Directed() [][]ev.Event {
+	wrap := func(e ...ev.Event) []ev.Event {
+		return append(append([]ev.Event{{K: ev.BD}, {K: ev.VER}}, e...), ev.Event{K: ev.ED})
+	}
+	bf, _ := new(big.Float).SetPrec(140).SetString("-0x.c2ce11731f7b19843b3311194fd36e2148ap+100")
+	out := [][]ev.Event{wrap(ev.Event{K: ev.BFLOAT, BF: bf})}
+	var ints []ev.Event
+	ints = append(ints, ev.Event{K: ev.LIST})
+	for _, b := range gen.IntBoundaries {
+		m, _ := new(big.Int).SetString(b, 10)
+		ints = append(ints, ev.Event{K: ev.BINT, BI: m}, ev.Event{K: ev.BINT, BI: new(big.Int).Neg(m)})
+		if m.IsUint64() {
+			ints = append(ints, ev.Event{K: ev.PINT, U: m.Uint64()}, ev.Event{K: ev.NINT, U: m.Uint64()})
+		}
+	}
+	ints = append(ints, ev.Event{K: ev.END})
+	out = append(out, wrap(ints...))
+	return out
+}
+
+var c01dir = c01Directed()
+
 func runC01(c *fw.Ctx, idx int) {
 	cfg := configuration.New()
 	in := gen.Stream(c.Rng, cbeStreamOpts(c))
+	if idx < len(c01dir) {
+		in = c01dir[idx]
+	}
 	c.Note("stream %s", ev.LogString(in))
 	a, rej, why := throughRules(in, cfg)
 	if rej >= 0 {
